@@ -99,9 +99,15 @@ pub struct MockCase {
     /// run flavour: cut-off of trade query n in seconds after T0 (0 = everything); modulo the length
     #[serde(default)]
     pub since: Vec<u16>,
+    /// run flavour, > 0: the open requests are pipelined — each is submitted (gap - 1) ms after the
+    /// previous one without waiting for responses or notifications (queries are left out); everything
+    /// is collected at the end
+    #[serde(default)]
+    pub pipeline_gap: u8,
 }
 
-const FEES: [(i64, u32); 5] = [(0, 0), (1, 3), (1, 2), (1, 1), (25, 2)];
+/// the last two are maker-rebate style schedules (a negative percentage)
+const FEES: [(i64, u32); 7] = [(0, 0), (1, 3), (1, 2), (1, 1), (25, 2), (-1, 3), (-5, 2)];
 
 struct Setup {
     assets: Vec<AssetNameExchange>,
@@ -322,6 +328,7 @@ fn normalise_mock(mut case: MockCase) -> MockCase {
     case.clock.truncate(10);
     case.abandon.truncate(10);
     case.since.truncate(6);
+    case.pipeline_gap = if case.pipeline_gap & 3 == 3 { 1 + (case.pipeline_gap >> 2) % 13 } else { 0 };
     case
 }
 
@@ -329,14 +336,15 @@ fn case_strategy(max_ops: usize, queries: bool) -> BoxedStrategy<MockCase> {
     (
         prop::collection::vec(prop_oneof![4 => 0u32..200_000_000, 1 => Just(0u32), 1 => Just(10_000u32)], 2..=4),
         prop::collection::vec((0u8..4, 0u8..4), 1..=3),
-        0u8..5,
+        0u8..7,
         0u8..50,
         prop::collection::vec(op(queries), 1..max_ops),
         if queries { prop_oneof![1 => Just(vec![]), 2 => prop::collection::vec(0u16..40, 2..10)].boxed() } else { Just(vec![]).boxed() },
         if queries { prop_oneof![1 => Just(vec![]), 1 => prop::collection::vec(prop::bool::weighted(0.15), 1..10)].boxed() } else { Just(vec![]).boxed() },
         if queries { prop_oneof![1 => Just(vec![]), 2 => prop::collection::vec(0u16..40, 1..6)].boxed() } else { Just(vec![]).boxed() },
+        if queries { prop_oneof![3 => Just(0u8), 1 => 1u8..14].boxed() } else { Just(0u8).boxed() },
     )
-        .prop_map(|(balances, instruments, fee_sel, latency_ms, ops, clock, abandon, since)| MockCase { balances, instruments, fee_sel, latency_ms, ops, clock, abandon, since })
+        .prop_map(|(balances, instruments, fee_sel, latency_ms, ops, clock, abandon, since, pipeline_gap)| MockCase { balances, instruments, fee_sel, latency_ms, ops, clock, abandon, since, pipeline_gap })
         .boxed()
 }
 
@@ -482,6 +490,57 @@ impl Check for MockExchangeRun {
             let (mut accepted, mut rejected, mut queries) = (0u32, 0u32, 0u32);
             let (mut abandoned_accepted, mut cutoff_queries, mut clock_went_back) = (0u32, 0u32, false);
             let watchdog = Duration::from_secs(3600);
+            if case.pipeline_gap > 0 {
+                // pipelined submission: nothing is awaited between two requests
+                let client = Arc::new(client);
+                let mut pending = Vec::new();
+                for (n, op) in case.ops.iter().enumerate() {
+                    let Op::Open { inst, unknown_instrument, buy, price_c, size, market, negative_qty } = *op else { continue };
+                    let r = resolve(&s, &ledger, n, inst, unknown_instrument, buy, price_c, size, market, negative_qty);
+                    let verdict = decide(&r, &ledger);
+                    let total_after = if let Verdict::Accept { asset, amount } = &verdict {
+                        *ledger.get_mut(asset).unwrap() -= *amount;
+                        Some((asset.clone(), ledger[asset]))
+                    } else {
+                        None
+                    };
+                    let (c, request) = (client.clone(), r.request.clone());
+                    let task = tokio::spawn(async move {
+                        let req = OrderRequestOpen { key: OrderKey { exchange: request.key.exchange, instrument: &request.key.instrument, strategy: request.key.strategy.clone(), cid: request.key.cid.clone() }, state: request.state.clone() };
+                        c.open_order(req).await
+                    });
+                    pending.push((n, r, verdict, total_after, task));
+                    tokio::time::sleep(Duration::from_millis(case.pipeline_gap as u64 - 1)).await;
+                    // the spawned submission runs before the next one is made even with a gap of 0
+                    tokio::task::yield_now().await;
+                }
+                tokio::time::sleep(Duration::from_millis(2 * case.latency_ms as u64 + 200)).await;
+                let all: Vec<UnindexedAccountEvent> = notes.lock().unwrap().clone();
+                for (n, r, verdict, total_after, task) in pending {
+                    let resp = tokio::time::timeout(watchdog, task).await.map_err(|_| ("no-response".to_string(), format!("pipelined request {n}: no response from the exchange")))?.map_err(|e| ("harness".to_string(), format!("{e}")))?;
+                    let id = check_response(n, &r, &verdict, &resp)?;
+                    match (id, total_after) {
+                        (Some(id), Some((asset, total))) => {
+                            accepted += 1;
+                            let n_trade = all.iter().filter(|e| matches!(&e.kind, AccountEventKind::Trade(t) if t.order_id.0 == id && t.quantity == r.request.state.quantity && t.fees.fees == s.fee * r.value_quote)).count();
+                            let n_bal = all.iter().filter(|e| matches!(&e.kind, AccountEventKind::BalanceSnapshot(b) if b.0.asset.to_string() == asset && b.0.balance.total == total)).count();
+                            if n_trade != 1 || n_bal < 1 {
+                                return Err(("pipelined-notifications".to_string(), format!("pipelined request {n} (one every {} ms, latency {} ms): accepted order {id} was announced by {n_trade} trade and {n_bal} balance ({asset} = {total}) notifications; all notifications: {all:?}", case.pipeline_gap - 1, case.latency_ms)));
+                            }
+                        }
+                        _ => rejected += 1,
+                    }
+                }
+                if all.len() != 2 * accepted as usize {
+                    return Err(("notification-multiplicity".to_string(), format!("{} notifications for {accepted} accepted pipelined orders: {all:?}", all.len())));
+                }
+                let snap = tokio::time::timeout(watchdog, client.account_snapshot(&[], &[])).await.map_err(|_| ("no-response".to_string(), "snapshot query unanswered".to_string()))?.map_err(|e| ("query-failed".to_string(), format!("{e:?}")))?;
+                if ledger_of_snapshot(&snap) != ledger {
+                    return Err(("snapshot-query".to_string(), format!("after the pipelined requests: account snapshot balances {:?} != ledger {ledger:?}", snap.balances)));
+                }
+                collector.abort();
+                return Ok((accepted, rejected, 1, 0, 0, false));
+            }
             for (n, op) in case.ops.iter().enumerate() {
                 if !case.clock.is_empty() {
                     let now = T0_MS + 1000 * case.clock[n % case.clock.len()] as i64;
@@ -621,6 +680,8 @@ impl Check for MockExchangeRun {
                 rep.class_if(r > 0, "rejected_order");
                 rep.class_if(q > 0, "query");
                 rep.class_if(case.latency_ms > 0, "latency_positive");
+                rep.class_if(case.pipeline_gap > 3 && (case.pipeline_gap as u64) <= case.latency_ms as u64 && a >= 2, "pipelined_orders_closer_than_the_latency");
+                rep.class_if(FEES[case.fee_sel as usize % FEES.len()].0 < 0 && a > 0, "accepted_order_under_a_rebate_schedule");
                 rep.nontrivial = a > 0 && r > 0 && q > 0;
             }
             Err((sig, msg)) => bad!(format!("run:{sig}"), "{msg}"),
@@ -630,7 +691,7 @@ impl Check for MockExchangeRun {
 }
 
 pub fn run(ctx: &mut Ctx) {
-    ctx.rule = "mock_ledger: 2..4 assets with generated initial balances (incl. zero), 1..3 spot instruments, fee in {0, 0.1%, 1%, 10%, 25%}, vec(request,1..30|60): side, price (2 dp), quantity explicit or sized against the spent asset's available balance (all of it / one 0.000001 more / half), 10% limit orders, 7% unknown instrument (an unrelated name or a listed name in lower case), 6% of the quantities carry a minus sign (read as magnitudes); checked after every request. mock_exchange_run: same with interleaved snapshot/balance/trade queries through MockExecution + MockExchange::run under the paused clock, latency 0..49 ms; in two thirds of the cases the client clock is a generated non-monotonic sequence and trade queries carry a cut-off — a whole second or exactly the announced time of an accepted fill — (expected = accepted fills announced with a time at or after it); in half of the cases 15% of the open requests are abandoned by their submitter before the exchange answers (still executed, announced and listed iff affordable). non-trivial = (ledger) an accepted sell AND a balance rejection AND a kind/instrument rejection in one history; (run) accepted + rejected + query; distinct by hash of the case.".into();
+    ctx.rule = "mock_ledger: 2..4 assets with generated initial balances (incl. zero), 1..3 spot instruments, fee in {0, 0.1%, 1%, 10%, 25%, -0.1%, -5%}, vec(request,1..30|60): side, price (2 dp), quantity explicit or sized against the spent asset's available balance (all of it / one 0.000001 more / half), 10% limit orders, 7% unknown instrument (an unrelated name or a listed name in lower case), 6% of the quantities carry a minus sign (read as magnitudes); checked after every request. mock_exchange_run: same with interleaved snapshot/balance/trade queries through MockExecution + MockExchange::run under the paused clock, latency 0..49 ms; in two thirds of the cases the client clock is a generated non-monotonic sequence and trade queries carry a cut-off — a whole second or exactly the announced time of an accepted fill — (expected = accepted fills announced with a time at or after it); in half of the cases 15% of the open requests are abandoned by their submitter before the exchange answers (still executed, announced and listed iff affordable); in a quarter of the cases the open requests are pipelined instead (one every 0..12 ms with nothing awaited in between; responses, notifications and the final balances are collected at the end). non-trivial = (ledger) an accepted sell AND a balance rejection AND a kind/instrument rejection in one history; (run) accepted + rejected + query; distinct by hash of the case.".into();
     ctx.assumptions = vec![
         "balances present for every asset of a configured instrument, total == free (what the builder sets up)".into(),
         "all arithmetic exact: prices 2 dp, quantities <= 6 dp, fees <= 3 dp".into(),
